@@ -140,7 +140,7 @@ func pseudoThroughDriver(cfg *Cfg) (bool, error) {
 	pcs := make(chan *types.Precommit[Hsh, Adr])
 	ctx, cancel := context.WithTimeout(context.Background(), 3*time.Second)
 	defer cancel()
-	d := driver.New[Val, Hsh, Adr](log.NewNopZapLogger(), &memWAL{}, rec, okCommits{make(chan jsync.CommittedBlock)},
+	d := driver.New[Val, Hsh, Adr](log.NewNopZapLogger(), &memWAL{}, rec, okCommits{ch: make(chan jsync.CommittedBlock)},
 		p2p.Broadcasters[Val, Hsh, Adr]{
 			ProposalBroadcaster:  fnBroadcaster[*types.Proposal[Val, Hsh, Adr]]{func(*types.Proposal[Val, Hsh, Adr]) {}},
 			PrevoteBroadcaster:   fnBroadcaster[*types.Prevote[Hsh, Adr]]{func(*types.Prevote[Hsh, Adr]) {}},
